@@ -188,15 +188,21 @@ impl<R> Arguments<R> {
             pos_args.push(arg);
         }
 
+        // keyword-only parameters without a default come first, so that `kw_defaults`
+        // lines up with the tail of `kwonlyargs` (as documented on `Arguments`)
         let mut kw_only = Vec::with_capacity(kwonlyargs.len());
+        let mut kw_only_with_default = Vec::new();
         let mut kw_defaults = Vec::new();
         for arg in kwonlyargs {
             let (arg, default) = arg.to_arg();
             if let Some(default) = default {
                 kw_defaults.push(*default);
+                kw_only_with_default.push(arg);
+            } else {
+                kw_only.push(arg);
             }
-            kw_only.push(arg);
         }
+        kw_only.append(&mut kw_only_with_default);
 
         PythonArguments {
             range: range.clone(),
@@ -238,15 +244,21 @@ impl<R> Arguments<R> {
             pos_args.push(arg);
         }
 
+        // keyword-only parameters without a default come first, so that `kw_defaults`
+        // lines up with the tail of `kwonlyargs` (as documented on `Arguments`)
         let mut kw_only = Vec::with_capacity(kwonlyargs.len());
+        let mut kw_only_with_default = Vec::new();
         let mut kw_defaults = Vec::new();
         for arg in kwonlyargs {
             let (arg, default) = arg.into_arg();
             if let Some(default) = default {
                 kw_defaults.push(*default);
+                kw_only_with_default.push(arg);
+            } else {
+                kw_only.push(arg);
             }
-            kw_only.push(arg);
         }
+        kw_only.append(&mut kw_only_with_default);
 
         PythonArguments {
             range,
